@@ -95,6 +95,8 @@ class State:
         self.try_stack: list[set[str]] = []     # exception class names caught by enclosing try
         self.ghost: dict[str, object] = {}
         self.spec = 0                           # >0 while evaluating a contract expression
+        self.unbound: dict[str, object] = {}    # local name -> condition under which it is NOT bound (joins of branches)
+        self.untyped_fields: set[str] = set()   # fields into which this function stored a value not known to have the declared type
         self.use_old = 0
         self.bound: list = []                   # bound variables of enclosing lambdas: (var, guard)
         self.trace: list[str] = []
@@ -126,6 +128,8 @@ class State:
         s.nonneg = set(self.nonneg)
         s.fresh = set(self.fresh)
         s.havoc_parent = dict(self.havoc_parent)
+        s.unbound = dict(self.unbound)
+        s.untyped_fields = set(self.untyped_fields)
         s.snap = dict(self.snap)
         return s
 
